@@ -165,12 +165,12 @@ def run(ctx: Ctx, env):
         if p.outcome != "return":
             continue
         conds = list(p.conds)
-        if not any(k.startswith("empty(collected(") and "join_relationships" in k and v is False for k, v in conds):
+        if not any(k.startswith("empty(") and "collected(" in k and "join_relationships" in k and v is False for k, v in conds):
             continue
         n_loop += 1
-        memb = [(k, v) for k, v in conds if k.startswith("in(") and "elemof(collected(" in k.split(",Map(")[0].split(",call(")[0] and "param('query')" in k]
-        bare = [(k, v) for k, v in memb if re.match(r"in\(S'\{elemof\(collected\([^)]*\)\)\|str\}'", k)]
-        keyed = [(k, v) for k, v in memb if "'key')" in k.split(",Map(")[0]]
+        memb = [(k, v) for k, v in conds if k.startswith("in(") and "elemof(collected(" in _first_arg(k) and "param('query')" in k]
+        bare = [(k, v) for k, v in memb if re.match(r"S'\{elemof\(collected\([^)]*\)\)\|str\}'$", _first_arg(k))]
+        keyed = [(k, v) for k, v in memb if "'key')" in _first_arg(k)]
         joined = any(c[0] in ("join", "outerjoin") and c[1] and "elemof" in repr(c[1][0]) and "collected" in repr(c[1][0])
                      for c in _chain(T.norm(p.value))[1])
         key = f"sqlalchemy.apply_odata_query|{p.cond_str()[-80:]}"
@@ -278,3 +278,24 @@ def _sqlalchemy_registration_rule() -> str:
     if not m:
         raise AnalysisError("sqlalchemy GenericFunction no longer registers with clsdict.get('package', ...): trusted base changed")
     return m.group(1)
+
+
+def _first_arg(cond_key: str) -> str:
+    """`in(<item>,<container>)` -> <item> (split at the first top-level comma)"""
+    body = cond_key[3:]
+    depth = 0
+    quote = None
+    for i, ch in enumerate(body):
+        if quote:
+            if ch == quote:
+                quote = None
+            continue
+        if ch in "'\"":
+            quote = ch
+        elif ch in "([{":
+            depth += 1
+        elif ch in ")]}":
+            depth -= 1
+        elif ch == "," and depth == 0:
+            return body[:i]
+    return body
